@@ -35,6 +35,12 @@ fn main() {
         eprintln!("usage: gth emit --prop Cxx --tier quick|thorough --seed N --shard k/K --out DIR");
         std::process::exit(2);
     }
+    if args[1] == "dump-schemas" {
+        for si in jobs::schema_pool() {
+            println!("{}\t{}", si.name, sx::schema(&si.doc));
+        }
+        return;
+    }
     let mut prop = "C15".to_string();
     let mut tier = "quick".to_string();
     let mut seed: u64 = 1;
